@@ -69,10 +69,23 @@ _CTX = {}
 
 
 def ctx_for(v):
-    if v not in _CTX:
+    """One shared ConnectionContext whose protocol_version is reassigned
+    for every use - exactly what Connection.connect() does with its context
+    on each reconnect/negotiation.  Anything memoised per context object
+    instead of per version therefore shows up in every check that goes
+    through this function (C04-C07, C11).  Callers use the returned context
+    before asking for another version."""
+    if 'shared' not in _CTX:
         from minecraft.networking.connection import ConnectionContext
-        _CTX[v] = ConnectionContext(protocol_version=v)
-    return _CTX[v]
+        _CTX['shared'] = ConnectionContext(protocol_version=v)
+    c = _CTX['shared']
+    c.protocol_version = v
+    return c
+
+
+def fresh_ctx(v):
+    from minecraft.networking.connection import ConnectionContext
+    return ConnectionContext(protocol_version=v)
 
 
 def make_form(form, x, y, z):
@@ -88,7 +101,7 @@ def probe_layout(v):
     """Which layout does pyCraft use at version v? 'new' | 'old' | None."""
     from minecraft.networking.types import Position
     s = Sink()
-    Position.send_with_context((1, 2, 3), s, ctx_for(v))
+    Position.send_with_context((1, 2, 3), s, fresh_ctx(v))
     if s.value == wire.position_word(1, 2, 3, True).to_bytes(8, 'big'):
         return 'new'
     if s.value == wire.position_word(1, 2, 3, False).to_bytes(8, 'big'):
@@ -300,7 +313,43 @@ def array_case(ctx, case):
         ctx.nt('a', v, tuple(pts))
 
 
-COMPONENTS = {'layout': layout_case, 'switch': switch_case,
+def reuse_case(ctx, case):
+    """One ConnectionContext object whose protocol_version is reassigned
+    (as Connection.connect() does on every reconnect / negotiation): the
+    layout must follow the *current* version each time.
+    case {versions: [v...], xyz}"""
+    from minecraft.networking.connection import ConnectionContext
+    from minecraft.networking.types import Position
+    x, y, z = case['xyz']
+    vs = case['versions']
+    ctx.ev()
+    c = ConnectionContext(protocol_version=vs[0])
+    for i, v in enumerate(vs):
+        c.protocol_version = v
+        lay = required_layout(v) or probe_layout(v)
+        want = wire.position_word(x, y, z, lay == 'new').to_bytes(8, 'big')
+        s = Sink()
+        sub = {'versions': vs[:i + 1], 'xyz': (x, y, z)}
+        try:
+            Position.send_with_context((x, y, z), s, c)
+            got = Position.read_with_context(CountingStream(want), c)
+        except Exception as e:
+            ctx.fail('reuse', 'P1-reuse-raises', sub, exc=e)
+            return
+        if s.value != want:
+            ctx.fail('reuse', 'P1-layout-follows-current-version', sub,
+                     s.value.hex(), want.hex())
+            return
+        if tuple(got) != (x, y, z):
+            ctx.fail('reuse', 'P2-layout-follows-current-version', sub,
+                     tuple(got), (x, y, z))
+            return
+    if len(set(required_layout(v) for v in vs)) > 1 and y != z:
+        ctx.nt('reuse', tuple(vs), x, y, z)
+
+
+COMPONENTS = {'reuse': reuse_case, 'layout': layout_case,
+              'switch': switch_case,
               'position': position_case, 'word': word_case,
               'section': section_case, 'record': record_case,
               'array': array_case}
@@ -345,6 +394,19 @@ def t_versions(ctx, lo, hi):
 
 
 def t_switch(ctx):
+    kp = known_protocols()
+    near = [p for p in kp if abs(rank(p) - rank(443)) <= 4] + \
+        [kp[0], 47, 340, 404, 477, 498, 578, 757]
+    for a in near:
+        for b in near:
+            reuse_case(ctx, {'versions': [a, b, a], 'xyz': (1200, 65, -420)})
+    for a in kp[::7]:
+        reuse_case(ctx, {'versions': [a, 404, 477, a, 757, 47],
+                         'xyz': (-1, 2, -3)})
+    ctx.sample({'versions': [404, 477, 404], 'xyz': (1200, 65, -420)},
+               'reuse')
+    ctx.exhaustive_done('context reuse: every ordered pair of versions near '
+                        'the layout switch + releases (a, b, a)')
     switch_case(ctx, {})
     ctx.exhaustive_done('layout switch-over: every known protocol probed')
 
@@ -406,6 +468,9 @@ def t_random(ctx, n):
         elif kind == 'a':
             case = {'version': t[1], 'points': t[2]}
             array_case(c, case)
+        elif kind == 'u':
+            case = {'versions': t[1], 'xyz': t[2]}
+            reuse_case(c, case)
         else:
             v, x, y, z, bs = t[1:]
             new = rank(v) >= r741
@@ -417,7 +482,8 @@ def t_random(ctx, n):
             record_case(c, case)
         if c.evaluations % 700 == 0:
             c.sample(case, {'p': 'position', 'w': 'word', 's': 'section',
-                            'sw': 'section', 'a': 'array'}.get(kind,
+                            'sw': 'section', 'a': 'array',
+                            'u': 'reuse'}.get(kind,
                                                                'record'))
     form = st.sampled_from(['Position', 'Vector', 'tuple'])
     strat = st.one_of(
@@ -430,6 +496,8 @@ def t_random(ctx, n):
         st.tuples(st.just('sw'), st.integers(0, 2 ** 64 - 1)),
         st.tuples(st.just('a'), ver,
                   st.lists(st.tuples(xz, yy, xz), max_size=5)),
+        st.tuples(st.just('u'), st.lists(ver, min_size=2, max_size=6),
+                  st.tuples(xz, yy, xz)),
         st.tuples(st.just('r'), ver, st.integers(0, 15),
                   st.integers(0, 255), st.integers(0, 15),
                   st.one_of(st.integers(0, 2 ** 51 - 1),
